@@ -1,4 +1,10 @@
 """C03 — Crash at any point recovers the last acknowledged state without loss."""
+import json
+import os
+import re
+import subprocess
+import tempfile
+
 from lib import vlib
 from lib.vlib import cq_bytes, cq_bool, cq_list
 
@@ -48,7 +54,7 @@ RULE = ("a case = op history (chunk writes compressed by the real code, raw chun
         "recovered or a damaged tail discarded; distinct by op list and damage list")
 ASSUMPTIONS = ["random garbage does not validate under CRC-32C (probability 2^-32 per window)",
                "distinct chunk addresses differ in their first 16 bytes"]
-REQUIRED_TAGS = ["big-intermediate-sync", "index-meta-written", "short-final-record-missed", "trunc-mid-record", "trunc-boundary", "trunc-lt4-tail", "zero-tail", "garbage-tail", "dataloss-reported", "lone-root-after-damage",
+REQUIRED_TAGS = ["root-only-commit", "crash-image", "big-intermediate-sync", "index-meta-written", "short-final-record-missed", "trunc-mid-record", "trunc-boundary", "trunc-lt4-tail", "zero-tail", "garbage-tail", "dataloss-reported", "lone-root-after-damage",
                  "xor-damage", "small-buffer", "op-too-big", "ro-open", "rw-truncated", "root-recovered", "chunk-recovered", "dup-addr", "bad-chunk-crc",
                  "f10-witness"]
 
@@ -113,7 +119,9 @@ def gen_ops(rng, small):
     for i in range(n):
         k = rng.random()
         if k < 0.35:
-            ops.append({"k": "commit", "root": rbytes(rng, 20), "ts": rng.choice([0, 1, 1700000000, rng.randrange(1 << 33), (1 << 40) + 5])})
+            roots = [o["root"] for o in ops if o["k"] == "commit"]
+            root = rng.choice(roots) if roots and rng.random() < 0.25 else rbytes(rng, 20)    # sometimes back to an earlier root
+            ops.append({"k": "commit", "root": root, "ts": rng.choice([0, 1, 1700000000, rng.randrange(1 << 33), (1 << 40) + 5])})
         elif k < 0.6:
             ln = rng.choice([0, 1, 3, 10, 40, 90]) if not small else rng.choice([1, 10, 30, 70, 120])
             if rng.random() < 0.4:
@@ -238,8 +246,18 @@ def big_case():
     return {"bufsz": 0, "maxnovel": 2, "ops": [], "muts": [], "big": 72}
 
 
+def root_only_case(rng):
+    """commits that write nothing but a root record: the first commit into a fresh journal, root moving A -> B -> A,
+    a commit right after another commit — each must be fsync'ed before it is acknowledged"""
+    a, b, c = rbytes(rng, 20), rbytes(rng, 20), rbytes(rng, 20)
+    ops = [{"k": "commit", "root": a, "ts": 1}, {"k": "commit", "root": b, "ts": 2}, {"k": "commit", "root": a, "ts": 3},
+           {"k": "raw", "addr": rbytes(rng, 20), "full": wf_payload(rng, 12)},
+           {"k": "commit", "root": c, "ts": 4}, {"k": "commit", "root": c, "ts": 5}, {"k": "commit", "root": b, "ts": 6}]
+    return {"bufsz": 0, "maxnovel": 16384, "ops": ops, "muts": [{"k": "trunc", "rec": i, "d": 0, "ro": i % 2 == 0} for i in range(len(ops) + 1)]}
+
+
 def gen_cases(rng, tier):
-    cases = [f10_case(rng, True), f10_case(rng, False), lone_root_case(rng), short_final_case(rng), big_case()]
+    cases = [f10_case(rng, True), f10_case(rng, False), lone_root_case(rng), short_final_case(rng), big_case(), root_only_case(rng)]
     n = 26 if tier == "quick" else 400
     for i in range(n):
         small = rng.random() < 0.3
@@ -272,6 +290,8 @@ def _mut_term(case_mut, mo):
                                    cq_list(_wrec(r) for r in (case_mut.get("recs", []) if case_mut is not None else [])))
     if k == "xor":
         return "MXor %d %s" % (at, cq_bytes(mo["bytes"]))
+    if k == "crash":
+        return "MCrash %d %d" % (mo["op"], at)
     return "MTrunc %d" % at
 
 
@@ -311,7 +331,8 @@ def coq_case(case, out):
         o["poly"], o["bufsz"], maxnovel, cq_list(ops), cq_list(cq_bytes(k) for k in o["known"]), cq_list(muts), cq_bool(bool(case.get("big"))))
     obs = ("{| o_ops := %s; o_journal := %s; o_rootsz := %d; o_recok := %s; o_fn_off := %d; o_fn_n := %d; o_fn_dl := %s; o_res := %s; "
            "o_index := %s; o_big := %d |}" % (
-        cq_list("{| oo_ok := %s; oo_end := %d; oo_disk := %d |}" % (cq_bool(not x["err"]), x["end"], x["diskafter"]) for x in o["ops"]),
+        cq_list("{| oo_ok := %s; oo_end := %d; oo_disk := %d; oo_synced := %d |}" % (cq_bool(not x["err"]), x["end"], x["diskafter"], x.get("synced", 0))
+                for x in o["ops"]),
         cq_bytes(o["journal"]), o["rootsz"], cq_bool(o["fn"]["recordsok"]), o["fn"]["procoff"], o["fn"]["procrecs"],
         cq_bool(o["fn"]["dataloss"]), cq_list(_res(m["res"]) for m in o["muts"]), cq_bytes(o.get("index") or []), bigcode))
     return "(%s, %s)" % (inp, obs)
@@ -374,6 +395,15 @@ def classify(case, out):
     if _count_metas(o.get("index") or []) >= 1:
         t.add("index-meta-written")
     b = _bounds(o)
+    prev_commit = True     # a fresh journal counts: nothing but the root record is written
+    for x in o["ops"]:
+        if x["err"]:
+            continue
+        if x["kind"] == 1 and prev_commit:
+            t.add("root-only-commit")
+        prev_commit = x["kind"] == 1
+    if any(m["k"] == "crash" for m in o["muts"]):
+        t.add("crash-image")
     if o["bufsz"] < 1024:
         t.add("small-buffer")
     if any(x["err"] for x in o["ops"]):
@@ -395,7 +425,7 @@ def classify(case, out):
             t.add("short-final-record-missed")
         if m["ro"]:
             t.add("ro-open")
-        if m["k"] == "trunc":
+        if m["k"] in ("trunc", "crash"):
             if m["at"] in b:
                 t.add("trunc-boundary")
             else:
@@ -427,7 +457,7 @@ def classify(case, out):
 
 def ApplyLen(o, m):
     j = o["journal"]
-    if m["k"] == "trunc":
+    if m["k"] in ("trunc", "crash"):
         return j[:m["at"]]
     if m["k"] == "zero":
         return j[:m["at"]] + [0] * m["n"]
@@ -488,7 +518,7 @@ def match_known(finding, case, out):
     hit = False
     if key == "journal:torn-tail-embeds-valid-records":
         for m in o["muts"]:
-            if m["k"] not in ("trunc", "zero"):
+            if m["k"] not in ("trunc", "zero", "crash"):
                 return False
             r = m["res"]
             off, root = _expected_silent(o, m)
@@ -504,8 +534,10 @@ def match_known(finding, case, out):
                 return False
         return hit
     if key == "journal:data-loss-check-ignores-final-record-shorter-than-root-record":
-        if len(case["muts"]) != len(o["muts"]):
-            return False
+        for m in o["muts"][len(case["muts"]):]:       # crash images added from the syscall trace: plain truncations
+            off, root = _expected_silent(o, m)
+            if m["k"] != "crash" or m["res"]["err"] != 0 or m["res"]["off"] != off or m["res"]["root"] != root:
+                return False
         for cm, m in zip(case["muts"], o["muts"]):
             if m["k"] != "tail":
                 return False
@@ -521,3 +553,109 @@ def match_known(finding, case, out):
             hit = True
         return hit
     return False
+
+
+# ---------------------------------------------------------------- durability: the syscall order of the real process
+JOURNAL_NAME = "v" * 32
+_MARK = re.compile(r'write\(\d+, "VERIFMARK (-?\d+) (-?\d+) ([SBAE])\\n"')
+_OPEN = re.compile(r'openat\(AT_FDCWD, "([^"]*)", ([A-Z_|0-9]+)(?:, [0-7]+)?\)\s+= (\d+)')
+_PWRITE = re.compile(r'pwrite64\((\d+), .*, (\d+), (\d+)\)\s+= (\d+)')
+_SYNC = re.compile(r'(?:fsync|fdatasync)\((\d+)\)\s+= 0')
+_TRUNC = re.compile(r'ftruncate\((\d+), (\d+)\)\s+= 0')
+_CLOSE = re.compile(r'close\((\d+)\)\s+= 0')
+
+
+def strace_sync(binary, cases, timeout=900):
+    """Runs every history through the real writer in a child process under strace (runner c03sync brackets each API call
+    with marker writes) and returns, per case, {op index: (bytes written to the journal fd, bytes covered by an fsync)}
+    at the moment the call returned."""
+    fd, log = tempfile.mkstemp(prefix="c03-strace-", dir="/tmp")
+    os.close(fd)
+    try:
+        inp = "".join(json.dumps(c, separators=(",", ":")) + "\n" for c in cases)
+        p = subprocess.run(["strace", "-f", "-qq", "-s", "64", "-e", "trace=pwrite64,write,fsync,fdatasync,ftruncate,openat,close",
+                            "-o", log, binary, "c03sync"], input=inp, capture_output=True, text=True, timeout=timeout)
+        if p.returncode != 0:
+            raise vlib.HarnessError("strace run failed rc=%s: %s" % (p.returncode, p.stderr[-1500:]))
+        res = [dict() for _ in cases]
+        pending = {}
+        cur, jfd, written, synced = None, None, 0, 0
+        with open(log, errors="replace") as f:
+            for line in f:
+                m = re.match(r"(\d+)\s+(.*)$", line.rstrip("\n"))
+                if not m:
+                    continue
+                pid, txt = m.group(1), m.group(2)
+                if txt.endswith("<unfinished ...>"):
+                    pending[pid] = txt[:-len("<unfinished ...>")]
+                    continue
+                r = re.match(r"<\.\.\. \w+ resumed>(.*)$", txt)
+                if r:
+                    txt = pending.pop(pid, "") + r.group(1)
+                mk = _MARK.search(txt)
+                if mk:
+                    c, op, what = int(mk.group(1)), int(mk.group(2)), mk.group(3)
+                    if what == "S":
+                        cur, jfd, written, synced = c, None, 0, 0
+                    elif what == "E":
+                        cur = None
+                    elif what == "A" and cur is not None and 0 <= cur < len(res):
+                        res[cur][op] = (written, synced)
+                    continue
+                if cur is None:
+                    continue
+                o = _OPEN.search(txt)
+                if o:
+                    if o.group(1).endswith("/" + JOURNAL_NAME) and "O_CREAT" in o.group(2):
+                        jfd = o.group(3)
+                    continue
+                if jfd is None:
+                    continue
+                w = _PWRITE.search(txt)
+                if w and w.group(1) == jfd:
+                    written = max(written, int(w.group(3)) + int(w.group(4)))
+                    continue
+                y = _SYNC.search(txt)
+                if y and y.group(1) == jfd:
+                    synced = written
+                    continue
+                tr = _TRUNC.search(txt)
+                if tr and tr.group(1) == jfd:
+                    written = int(tr.group(2))
+                    synced = min(synced, written)
+                    continue
+                cl = _CLOSE.search(txt)
+                if cl and cl.group(1) == jfd:
+                    jfd = None
+        return res
+    finally:
+        try:
+            os.remove(log)
+        except OSError:
+            pass
+
+
+def run_impl(ctx, binary, cases):
+    """1. durability run under strace: fsync'ed / written journal length when each call returned;
+       2. the main run, with crash images derived from that trace added to every case: for each call, the file prefixes
+          of the fsync'ed length, of the written length and one in between (a power loss right after the call returned);
+       the per-op fsync'ed length is merged into the observation (oo_synced)."""
+    sync = strace_sync(binary, cases)
+    cases2 = []
+    for c, sy in zip(cases, sync):
+        extra = []
+        for i in sorted(sy):
+            wr, sn = sy[i]
+            for k in sorted(set([sn, wr, (sn + wr) // 2])):
+                extra.append({"k": "crash", "op": i, "at": k, "ro": (i + k) % 3 == 0})
+        cases2.append(dict(c, muts=list(c["muts"]) + extra) if extra else c)
+    outs = vlib.run_harness(binary, HARNESS_RUNNER, cases2, timeout=1800)
+    for o, sy in zip(outs, sync):
+        ob = o.get("obs")
+        if ob:
+            for i, x in enumerate(ob["ops"]):
+                if i not in sy:
+                    raise vlib.HarnessError("no syscall trace for op %d" % i)
+                x["synced"] = sy[i][1]
+                x["tracewritten"] = sy[i][0]
+    return outs
